@@ -168,6 +168,8 @@ def impl_eval(t, n, poly):
     if k == 'lit':
         alpha = np.array([[float(a) for a in r] for r, _ in t[1]]).reshape(len(t[1]), n)
         c = np.array([float(c) for _, c in t[1]])
+        if np.all(alpha == np.round(alpha)) and (hash(str(t)) % 3 == 0):
+            alpha = alpha.astype(int)       # exponents handed over as an integer array (with whatever repeated rows it has)
         return (Polynomial if poly else Signomial)(alpha, c)
     if k in ('add', 'sub', 'mul', 'div'):
         a, b = impl_eval(t[1], n, poly), impl_eval(t[2], n, poly)
@@ -384,6 +386,13 @@ def run(ctx):
             a = ctx.rng.choice(ts)
             b = ctx.rng.choice([a, ctx.rng.choice(ts), ('addq', a, Fraction(0)), ('mulq', a, Fraction(1)), ('add', a, ('lit', [([Fraction(0)] * n, Fraction(ctx.rng.choice([0, 1, 5])))]))])
             pairs.append((a, b, n, poly))
+        # large coefficients that differ by one unit: the tolerance of == is absolute (1e-8), not relative
+        rows = [[Fraction(ctx.rng.choice([0, 1, 2])) for _ in range(n)] for _ in range(2)]
+        if rows[0] != rows[1]:
+            big = Fraction(ctx.rng.choice([2 ** 17, 3 * 2 ** 18, 10 ** 6]))
+            a = ('lit', [(rows[0], big), (rows[1], Fraction(3))])
+            for d in (Fraction(1), Fraction(1, 2), Fraction(0)):
+                pairs.append((a, ('lit', [(rows[0], big + d), (rows[1], Fraction(3))]), n, poly))
     for a, b, n, poly in pairs:
         try:
             f, g = impl_eval(a, n, poly), impl_eval(b, n, poly)
